@@ -760,6 +760,15 @@ def build_problem(case):
             regions=(rng.random() < 0.3))
         feats['maxp'] = wl.choose(rng, ['zero', 'nonneg', 'bottom'])
     feats['tdep'] = tdep
+    feats['power_scaling'] = None
+    if case['kind'] != 'maxp' and rng.random() < 0.3:
+        # the same power written as a smaller distribution times a scaling
+        # factor (the hot end of the step criterion follows the scaled power)
+        sc = float(wl.choose(rng, [2.0, 3.0, 5.0]))
+        P['power']['scaling'] = sc
+        for sp in P['power']['asm'].values():
+            sp['total'] = sp['total'] / sc
+        feats['power_scaling'] = sc
     # the correlation-update tolerance is outside this property's quantifier
     # (stale correlated parameters are an accepted approximation; C01 covers
     # it for energy conservation): always update
@@ -776,12 +785,35 @@ def steps_ok(r, res, limit=4000):
     return True
 
 
-def check_own_limits(res, r, dzmax, key):
+def check_own_limits(res, r, dzmax, key, P=None, inp=None):
     """The step requirement recorded for every assembly is the one its own
     regions give between the inlet and its own estimated outlet temperature
     (DASSH's limit functions re-run on the live assembly), and the selected
-    step does not exceed any of them."""
+    step does not exceed any of them. The estimated outlet temperature is
+    the one the power of the INPUT (after normalisation and scaling) gives
+    with the assembly's flow."""
     lims = []
+    if P is not None and inp is not None:
+        from vmon.checks.c03 import expected_assigned
+        exp, _tot = expected_assigned(P)
+        cm = inp.data['Core']['coolant_material'].lower()
+        for a in r.assemblies:
+            if a.id not in exp or not exp[a.id] > 0.0:
+                continue
+            with drive.quiet():
+                t_exp = float(dassh.utils.Q_equals_mCdT(
+                    exp[a.id], r.inlet_temp, r.materials[cm].clone(),
+                    mfr=a.flow_rate))
+            rise = max(t_exp - float(r.inlet_temp), 1e-9)
+            res.close('L0_estimated_outlet_follows_input_power',
+                      float(a._estimated_T_out) - t_exp, rise, 1e-6,
+                      'estimated outlet temperature of assembly %d (hot end '
+                      'of the step criterion) is not the one its input '
+                      'power and flow give' % a.id,
+                      dict(key, scaling=P['power'].get('scaling')),
+                      {'got': float(a._estimated_T_out), 'exp': t_exp,
+                       'power_expected': exp[a.id],
+                       'total_power': float(a.total_power)})
     with drive.quiet():
         for ai, a in enumerate(r.assemblies):
             own = float(dassh.assembly.calculate_min_dz(
@@ -815,7 +847,8 @@ def run_probe_case(case, res):
         dzmax = float(np.max(r.dz))
         feats['dz'] = dzmax
         feats['limit'] = [float(x) for x in r.min_dz['dz']]
-        check_own_limits(res, r, dzmax, key)
+        check_own_limits(res, r, dzmax, key, P=P, inp=inp)
+        res.tag('power_scaling=%s' % feats.get('power_scaling'))
         pts = set([1, len(r.z) - 1])
         # ... and one step inside every axial region of the assemblies that
         # are probed
